@@ -161,7 +161,30 @@ def run(ctx):
     total = sealed = 0
     for c in cases:
         log = logs.get(core.case_id(c), [])
+        if connlib.sealing_monitor(c, log, ctx):
+            return
         seen = nonce_monitor(c, log, ctx)
+        if ctx.failures:
+            return
+        for rec in log:
+            if rec["op"] == "build" and rec.get("pkt"):
+                total += 1
+                sealed += 1 if rec["pkt"]["sealed"] else 0
+                ctx.count("emit:ty=%d" % rec["pkt"]["ty"])
+    # ---- the handshake itself: nothing but the two hellos leaves in clear, also when the application calls send() while it is in flight
+    hcases, houts, hlogs = [], {}, {}
+    for i in range(ctx.scale(40, 600)):
+        cid = "hs%d-%s" % (i, "early-send" if i % 2 == 0 else "honest")
+        lines, outs, log = connlib.gen_handshake(real, rng, cid, "early-send" if i % 2 == 0 else "honest")
+        hcases.append(lines)
+        houts[cid] = outs
+        hlogs[cid] = log
+    connlib.run_recorded(ctx, hcases, houts, connlib.make_post_hs(post_fn), "Handshake(emissions)", RULE, lambda c, o: "early-send" in c[0])
+    for c in hcases:
+        log = hlogs[core.case_id(c)]
+        if connlib.sealing_monitor(c, log, ctx):
+            return
+        nonce_monitor(c, log, ctx)
         if ctx.failures:
             return
         for rec in log:
